@@ -2,7 +2,7 @@
 use crate::gen::*;
 use serde_json::{json, Value};
 
-pub const NAMES: &[&str] = &["div", "p", "span", "em", "ul", "li", "section", "b"];
+pub const NAMES: &[&str] = &["div", "p", "span", "em", "ul", "li", "section", "b", "td", "tr", "table"];
 pub const CLASSES: &[&str] = &["x", "y", "z"];
 
 pub fn colour_hex(c: &Value) -> String { format!("#{:02x}{:02x}{:02x}", c[0].as_u64().unwrap_or(0), c[1].as_u64().unwrap_or(0), c[2].as_u64().unwrap_or(0)) }
@@ -118,22 +118,26 @@ pub fn style_attr_text(decls: &[Value]) -> String {
 
 /// A document for the CSS families: elements with classes / ids, mixed text and element children,
 /// a unique lower-case token in every text node.  No tables, no links (footnotes), no pre.
-pub struct CssDoc { pub ids: Vec<String>, tok: u32 }
+pub struct CssDoc { pub ids: Vec<String>, tok: u32, pub tables: bool }
 impl CssDoc {
-    pub fn new() -> CssDoc { CssDoc { ids: vec![], tok: 0 } }
+    pub fn new() -> CssDoc { CssDoc { ids: vec![], tok: 0, tables: false } }
     pub fn token(&mut self) -> String { self.tok += 1; let mut k = self.tok; let mut s = String::from("t"); loop { s.push((b'a' + (k % 26) as u8) as char); k /= 26; if k == 0 { break; } } s }
     pub fn element(&mut self, r: &mut Rng, depth: u32, parent: &str) -> N {
         let inline_parent = ["p", "span", "em", "b"].contains(&parent);
-        let name = if parent == "ul" { "li" } else if inline_parent { *r.pick(&["span", "em", "b"]) } else { *r.pick(&["div", "p", "span", "em", "ul", "section", "div", "p"]) };
+        let name = if parent == "ul" { "li" } else if parent == "table" { "tr" } else if parent == "tr" { "td" }
+                   else if inline_parent { *r.pick(&["span", "em", "b"]) }
+                   else if self.tables && depth <= 1 && r.chance(1, 6) { "table" }
+                   else { *r.pick(&["div", "p", "span", "em", "ul", "section", "div", "p"]) };
+        let structural = name == "table" || name == "tr";
         let mut attrs: Vec<(&str, String)> = vec![];
         if r.chance(1, 2) { let mut cl = vec![*r.pick(CLASSES)]; if r.chance(1, 3) { let c2 = *r.pick(CLASSES); if !cl.contains(&c2) { cl.push(c2); } } attrs.push(("class", cl.join(" "))); }
         if r.chance(1, 4) { let id = format!("i{}", self.ids.len() + 1); self.ids.push(id.clone()); attrs.push(("id", id)); }
         let mut kids = vec![];
-        let nk = if depth >= 3 { r.below(2) } else { r.below(4) };
-        if name != "ul" && r.chance(2, 3) { kids.push(N::T(self.token())); }
+        let nk = if structural { r.range(1, 3) } else if depth >= 3 { r.below(2) } else { r.below(4) };
+        if name != "ul" && !structural && r.chance(2, 3) { kids.push(N::T(self.token())); }
         for _ in 0..nk {
-            kids.push(self.element(r, depth + 1, name));
-            if name != "ul" && r.chance(1, 3) { kids.push(N::T(format!(" {} ", self.token()))); }
+            kids.push(self.element(r, if structural { depth } else { depth + 1 }, name));
+            if name != "ul" && !structural && r.chance(1, 3) { kids.push(N::T(format!(" {} ", self.token()))); }
         }
         if name == "ul" && kids.is_empty() { kids.push(N::el("li", vec![N::T(self.token())])); }
         N::ela(name, attrs, kids)
